@@ -14,10 +14,15 @@ PROP = dict(
           "'/', '*', '-' (and blanks for direct Tidy calls), optional leading/trailing/doubled separators; 1-3 values from "
           "{0,-0,+-Inf,NaN,min subnormal,max,1,random bits,ordinary}. Each case is checked through Tidy, the Reader, "
           "UnitMetadataMap.Get/GetAssumption/GetBetter and .unit filters by written and base unit. Non-trivial = the written unit "
-          "contains 'ns' or 'MB' as component or substring. Distinct = distinct case JSON."),
+          "contains 'ns' or 'MB' as component or substring. Unit 'history': 1-3 inputs of 1-4 lines with 1-4 measurements each "
+          "(14 units, one metric possibly written twice on a line in scaled and base form) through ONE Reader with Reset between "
+          "inputs, optionally trimmed in place between Scans by a literal/regexp/negated .unit filter; every measurement must be the "
+          "normalised form of its own text with the original kept exactly when something was normalised (non-trivial = more than one "
+          "input, trimming, or a metric twice on a line). Distinct = distinct case JSON."),
     assumptions=["reference tidier in lib/refbench reflects the documented normalisation (numerator ns->sec x1e-9, MB->B x1e6)"],
     units=[
         R("rapid", "A", "./c04", "TestC04Rapid", (15000, 4), (400000, 16)),
+        R("history", "A", "./c04", "TestC04History", (6000, 2), (200000, 8)),
         E("grid", "A", "./c04", "TestC04Grid", 1, 1),
         F("fuzz", "./c04", "FuzzC04", 60),
     ],
